@@ -120,6 +120,17 @@ def main() -> int:
     n_enum = len(srcs)
     for _ in range(8000 if thorough else 1200):
         srcs.append(gen_exps.random_program(rng, max_depth=rng.choice([1, 2, 3, 3])))
+    # routine tables of every layout the compiler accepts: ids that skip numbers or do not start at 0, alias routines, coroutines
+    for ids in ([0, 2], [3], [0, 1, 5], [1], [0, 2, 4, 9], [2, 3], [0, 1, 2, 10]):
+        for style in ("plain", "targets", "alias"):
+            rts = []
+            for j, i in enumerate(ids):
+                hdr = f"def {i}" if style == "plain" or j == 0 else (f"def {i} for actor ACTOR_{i}" if j % 2 else f"def {i} for object {i}")
+                body = "alias previous;" if style == "alias" and j == len(ids) - 1 and j > 0 else f"t{i}(); if ($V == {i}) {{ u{i}(); }} return;"
+                rts.append(f"{hdr} {{ {body} }}")
+            srcs.append("\n".join(rts) + "\n")
+    srcs += ["coro A { a(); return; }\ncoro B { alias previous; }\ncoro C { alias previous; }\ncoro D { d(); if ($V == 1) { e(); } end; }\n",
+             "def 0 { alias previous; }\ndef 1 { a(); return; }\n"]
     results = [r for r in pmap(compile_exps, srcs) if r.get("status") == "ok"]
     trees = gen_macros.family(rng, thorough)
     mres = [r for r in pmap(compile_tree, trees, chunk=4) if r.get("status") == "ok"]
